@@ -683,7 +683,7 @@ MANIFEST = dict(
          "units and uncertainty, and - whenever any attribute of its Magnitude/BaseUnits changed - the same recomputed "
          "reports (value(unit), q*1, q*q, sqrt(q), rebase() on deep copies) as before the step.  Augmented assignments "
          "are part of the alphabet (the old object must stay unchanged), and per pool the differential histories "
-         "P,S,P vs S,P (P pure, S in-place) must give identical results.",
+         "P,S,P vs S,P (P pure, S in-place) must give identical results.  Twin pools (two separately built quantities holding the same number in the same unit: scalar, with uncertainty, array, temperature, level, and two quantities built from one caller-owned ndarray) are explored one level deeper with the probing alphabet at every level; slicing (a[1:3], a[:]) is an operation of the alphabet.",
     note="Sharing between result and operand is judged by its effect through the in-place methods (as the statement "
          "defines it), not structurally; operand magnitudes are one representative per pool; histories longer than the "
          "bound rely on the small-scope hypothesis; trusted: value()/units()/abse() are read-only accessors; the "
